@@ -3,40 +3,65 @@
 (* satisfies the window obligations (Layer P, PrisonP.tla) for every arrival timing   *)
 (* of every key within the bounds.  One action per call of prisonHandler:             *)
 (* Arrive(k) at the current time; Tick advances the clock.                            *)
+(* A product has an ordered LIST of rules that match the same request, each with its  *)
+(* own threshold, dictionaries and action.  processRules walks the list: every rule   *)
+(* records the request and decides for itself; a jailed key meets the rule's action:  *)
+(* CLOSE / FINISH end the request (later rules do not see it), PASS / REQ_HEADER_SET   *)
+(* let it go on to the next rule.  Layer P holds PER RULE: each rule's verdicts obey   *)
+(* the window obligations over the arrivals that rule saw, whatever other rules do.   *)
 EXTENDS PrisonP, FiniteSets, TLC
 
-CONSTANTS NKeys, Th, P, J, S, MaxT, MaxArr
-
+CONSTANTS NKeys, NRules, Th1, Th2, Act1, Act2, P, J, S, MaxT, MaxArr
+\* thresholds and action kinds of the (one or two) rules, in list order
+Ths == SubSeq(<<Th1, Th2>>, 1, NRules)
+Acts == SubSeq(<<Act1, Act2>>, 1, NRules)
+Rules == 1..NRules
 Keys == 1..NKeys
-C == [th |-> Th, p |-> P, j |-> J, s |-> S]
+C(r) == [th |-> Ths[r], p |-> P, j |-> J, s |-> S]
+Terminal(r) == Acts[r] \in {"CLOSE", "FINISH"}
+ASSUME Len(Acts) = NRules /\ \A r \in Rules : Acts[r] \in {"CLOSE", "FINISH", "PASS", "REQ_HEADER_SET"}
 
 VARIABLES now, narr,
-          pst,      \* Layer P: per key, what the property knows
-          mst,      \* Layer M: per key, counter and jail
-          last      \* last call: [k, t, deny, ok]
+          pst,      \* Layer P: per rule and key, what the property knows
+          mst,      \* Layer M: per rule and key, counter and jail
+          last      \* last call: [k, t, deny (per rule; FALSE when not seen), seen (rules that saw it), ok]
 vars == <<now, narr, pst, mst, last>>
 
 Init == /\ now = 0 /\ narr = 0
-        /\ pst = [k \in Keys |-> PFresh]
-        /\ mst = [k \in Keys |-> MFresh]
-        /\ last = [k |-> 0, t |-> 0, deny |-> FALSE, ok |-> TRUE]
+        /\ pst = [r \in Rules |-> [k \in Keys |-> PFresh]]
+        /\ mst = [r \in Rules |-> [k \in Keys |-> MFresh]]
+        /\ last = [k |-> 0, t |-> 0, deny |-> [r \in Rules |-> FALSE], seen |-> {}, ok |-> TRUE]
 
 Tick == /\ now < MaxT /\ now' = now + 1 /\ UNCHANGED <<narr, pst, mst, last>>
 
+\* processRules: rule r sees the request unless an earlier rule ended it
+RECURSIVE Walk(_, _, _, _, _, _, _, _)
+Walk(r, ended, k, ps, ms, dn, sn, ok) ==
+    IF r > NRules THEN [ps |-> ps, ms |-> ms, dn |-> dn, sn |-> sn, ok |-> ok]
+    ELSE IF ended THEN Walk(r + 1, TRUE, k, [ps EXCEPT ![r][k] = PUnknown(C(r), @, now)], ms, dn, sn, ok)
+    ELSE LET d == MVerdict(C(r), ms[r][k], now) IN
+         Walk(r + 1, d /\ Terminal(r), k,
+              [ps EXCEPT ![r][k] = PNext(C(r), @, now, d)],
+              [ms EXCEPT ![r][k] = MNext(C(r), @, now)],
+              [dn EXCEPT ![r] = d], sn \cup {r},
+              ok /\ d \in Allowed(C(r), ps[r][k], now))
+
 Arrive(k) ==
     /\ narr < MaxArr /\ narr' = narr + 1
-    /\ LET d == MVerdict(C, mst[k], now) IN
-         /\ last' = [k |-> k, t |-> now, deny |-> d, ok |-> d \in Allowed(C, pst[k], now)]
-         /\ pst' = [pst EXCEPT ![k] = PNext(C, @, now, d)]
-         /\ mst' = [mst EXCEPT ![k] = MNext(C, @, now)]
+    /\ LET w == Walk(1, FALSE, k, pst, mst, [r \in Rules |-> FALSE], {}, TRUE) IN
+         /\ last' = [k |-> k, t |-> now, deny |-> w.dn, seen |-> w.sn, ok |-> w.ok]
+         /\ pst' = w.ps
+         /\ mst' = w.ms
     /\ UNCHANGED now
 
 Next == Tick \/ \E k \in Keys : Arrive(k)
 Spec == Init /\ [][Next]_vars
 
-\* M |= P: every verdict of the mechanism is one Layer P allows
+\* M |= P: every verdict of every rule is one Layer P allows for that rule
 VerdictOK == last.ok
+\* a rule is skipped only because an earlier CLOSE / FINISH rule denied the request
+SeenOK == \A r \in Rules : r \notin last.seen /\ last.k # 0 => \E q \in 1..(r - 1) : Terminal(q) /\ last.deny[q]
 \* (c) is structural: a call touches the state of its own key only
-OthersUntouched == [][\A k \in Keys : (last'.k # k \/ UNCHANGED narr) => (pst'[k] = pst[k] /\ mst'[k] = mst[k])]_vars
-\* the model is not vacuous: jailing, expiry and limbo are all reached (checked by coverage of PNext)
+OthersUntouched == [][\A k \in Keys : (last'.k # k \/ UNCHANGED narr) =>
+                        \A r \in Rules : pst'[r][k] = pst[r][k] /\ mst'[r][k] = mst[r][k]]_vars
 =============================================================================
